@@ -24,7 +24,7 @@ Definition big30 : Q := inject_Z (10 ^ 30).
 (* ------------------------------------------------------------------ VectorNumT<double> (no NA handling) *)
 Definition VN_sum (v : list Q) : Q := fold_left Qplus v 0.
 Definition VN_maximum (v : list Q) : Q :=
-  match v with [] => 0 | _ => fold_left (fun m x => if qltb m x then x else m) v dbl_min end.
+  match v with [] => 0 | _ => fold_left (fun m x => if qltb m x then x else m) v (- dbl_max) end.   (* numeric_limits<double>::lowest() *)
 Definition VN_minimum (v : list Q) : Q :=
   match v with [] => 0 | _ => fold_left (fun m x => if qltb x m then x else m) v dbl_max end.
 Definition VN_mean (v : list Q) : option Q :=
@@ -37,15 +37,13 @@ Definition VN_zip (f : Q -> Q -> Q) (a b : list Q) : res (list Q) :=
 Definition VN_add := VN_zip Qplus.
 Definition VN_subtract := VN_zip Qminus.
 Definition VN_multiply := VN_zip Qmult.
-(* VectorNumT<T>::divide VectorNumT.hpp:183,225: "if (abs(v[i]) < 1.e-10) throw" — in this header the unqualified abs is
-   ::abs(int): the double is first truncated towards zero, so every divisor of magnitude below 1 is refused *)
-Definition c_abs_int (x : Q) : Z := Z.abs (Z.quot (Qnum x) (Zpos (Qden x))).
+(* VectorNumT<T>::divide VectorNumT.hpp:183,225: "if (std::abs(static_cast<double>(v[i])) < 1.e-10) throw" *)
 Definition VN_divide (a b : list Q) : res (list Q) :=
   if negb (length a =? length b)%nat then Exn
-  else if existsb (fun x => qltb (inject_Z (c_abs_int x)) eps10) b then Exn
+  else if existsb (fun x => qltb (Qabs x) eps10) b then Exn
   else Ok (map (fun p => fst p / snd p) (combine a b)).
 Definition VN_divide_scalar (a : list Q) (c : Q) : res (list Q) :=
-  if qltb (inject_Z (c_abs_int c)) eps10 then Exn else Ok (map (fun x => x / c) a).
+  if qltb (Qabs c) eps10 then Exn else Ok (map (fun x => x / c) a).
 
 (* ------------------------------------------------------------------ VectorHelper (NA-aware reductions) *)
 Definition VH_maximum (v : list ov) : ov :=
